@@ -7,6 +7,8 @@ R4 the reused mosaic buffer is cleared (NaN/zero) on every path before children 
 R5 merged = merger(buffer) is written at the callback's own position
 R6 averaging merger: reshape (h/2, 2, w/2, 2)+rest, nanmean over the two 2-axes, cast back
 R7 fully masked tiles are removed, not stored (shared with C15.R5)
+R8 no remembered reading of the file system in the tile I/O layer
+R9 the `cascade` subcommand hands the user's selections on: directory, --format (as the pyramid's default format), --start, -j
 """
 import ast
 
@@ -40,7 +42,7 @@ def run(run):
     run.assumptions += ["numpy: reshape/nanmean(axis=...)/astype; 2-D indexing is [row, col]",
                         "Image.clear() fills with the mode's undefined value (C15.R2)"]
     run.undecided_clauses += ["numerical value of the means and integer rounding", "codec behaviour (PNG/JPEG/FITS I/O)"]
-    for r, n in (("C02.R1", 2), ("C02.R2", 2), ("C02.R3", 2), ("C02.R4", 1), ("C02.R5", 1), ("C02.R6", 1), ("C02.R7", 1), ("C02.R8", 1)):
+    for r, n in (("C02.R1", 2), ("C02.R2", 2), ("C02.R3", 2), ("C02.R4", 1), ("C02.R5", 1), ("C02.R6", 1), ("C02.R7", 1), ("C02.R8", 1), ("C02.R9", 4)):
         run.floor(r, n)
     _r1_tables(run)
     _r2_selection(run)
@@ -58,8 +60,10 @@ def run(run):
             chains = c15._r1_chains(sub, members)
             c15._r2_conventions(sub, members, chains)
     _common.delegate(run, "C02.R7", "C15", conv, only_rules={"C15.R2"}, note="premise of 'an all-undefined parent is removed, not stored'")
+    _common.delegate(run, "C02.R6", "C15", lambda sub: c15.buffer_layouts(sub, "C15.R7"), only_rules={"C15.R7"}, note="premise: the mosaic buffer holds the children's pixels in their own type")
     # "which children exist" is read from the disk at merge time: in a parallel cascade the children were written by other
     # processes, so nothing in the tile I/O layer (or the merger) may answer from a remembered copy of the directory state
+    _r9_cli(run)
     from . import memo
     n_tab = 0
     for modname in ("toasty.pyramid", M):
@@ -69,6 +73,70 @@ def run(run):
     if not [o for o in run.obs if o.rule == "C02.R8"]:
         run.holds("C02.R8", run.project.fn("toasty.pyramid.PyramidIO.read_image"), None, "the tile I/O layer and the merger keep no memo table / cached reading of "
                   "the file system (%d uses); positive example flagged" % n_tab, table_uses=n_tab)
+
+
+def _r9_cli(run):
+    """The command-line cascade works on the pyramid, format, start depth and worker count the user named: each option of
+    cascade_getparser reaches the corresponding parameter of merge.cascade_images / PyramidIO (value flow through helpers)."""
+    project = run.project
+    CLI = "toasty.cli"
+    impl = project.funcs.get(CLI + ".cascade_impl")
+    if impl is None:
+        run.undecided("C02.R9", None, None, "toasty.cli.cascade_impl not found", kind="anchor", construct="cascade_impl", file="toasty/cli.py")
+        return
+    run.note_func(impl)
+    ev = sym.make_evaluator(project, CLI, [], inline_local=True)
+    ev.inline_resolved = True
+    ev.no_inline = ("cascade_images", "die", "averaging_merger")
+    r = ev.run(impl.node)
+    S = ("sym", impl.params()[0])
+    calls = [e for e in r.events if e.kind == "call" and show(e.term[1]).split(".")[-1] == "cascade_images"]
+    if len(calls) != 1:
+        run.undecided("C02.R9", impl, None, "cascade_impl calls cascade_images %d times (through helpers that are not followed?)" % len(calls), kind="cli-shape")
+        return
+    t = calls[0].term
+    target = project.fn(M + ".cascade_images")
+    ps = target.params()
+    bound = dict(zip(ps, t[2]))
+    bound.update(dict(t[3]))
+    pio = bound.get(ps[0])
+
+    def ctor_args(c):
+        if c is None or c[0] != "call" or show(c[1]).split(".")[-1] != "PyramidIO":
+            return None
+        init = project.fn("toasty.pyramid.PyramidIO.__init__")
+        ips = init.params()[1:]
+        b = dict(zip(ips, c[2]))
+        b.update(dict(c[3]))
+        return b
+    ca = ctor_args(pio)
+    want = [("pyramid_dir", "the pyramid directory", lambda: ca.get("base_dir") if ca is not None else None),
+            ("format", "--format (the pyramid's default format: which tiles are read and written)", lambda: ca.get("default_format", sym.NONE) if ca is not None else None),
+            ("start", "--start", lambda: bound.get("start")),
+            ("parallelism", "-j / --parallelism", lambda: bound.get("parallel", sym.NONE))]
+    if ca is None:
+        run.undecided("C02.R9", impl, calls[0].node, "the pyramid handed to cascade_images is %s, not a PyramidIO built here" % show(pio)[:80], kind="cli-pio")
+        return
+    for dest, label, getter in want:
+        got = getter()
+        exp = ("attr", S, dest)
+        if got == exp:
+            run.holds("C02.R9", impl, calls[0].node, "%s reaches the cascade as settings.%s" % (label, dest), option=dest)
+        elif got is not None and exp in _atoms(got):
+            run.undecided("C02.R9", impl, calls[0].node, "%s reaches the cascade as %s" % (label, show(got)[:80]), kind="cli-derived-" + dest, option=dest)
+        else:
+            run.violated("C02.R9", impl, calls[0].node, "%s does not reach the cascade: the value used is %s, not settings.%s -- the command works on something other "
+                         "than what the user selected" % (label, "the callee's default" if got is None or got == sym.NONE else show(got)[:60], dest), kind="cli-option-" + dest, option=dest)
+
+
+def _atoms(t):
+    out = set()
+    if isinstance(t, tuple):
+        out.add(t)
+        for x in t:
+            if isinstance(x, tuple):
+                out |= _atoms(x)
+    return out
 
 
 def _slice_half(node, consts=None):
@@ -277,6 +345,12 @@ def _r3_r5_callback(run):
     project = run.project
     f, ev, r = _callback_eval(project)
     run.note_func(f)
+    from . import common as _c
+    for g in [f] + [h for h in project.funcs.values() if h.cls is not None and f.cls is not None and h.cls is f.cls and h is not f]:
+        for c, a, why, b in _c.misaligned_zips(project, g):
+            run.violated("C02.R3", g, c, "%s pairs `%s` with `%s` by position, but `%s` comes from %s: when a child tile is missing, every image behind it is placed in "
+                         "its predecessor's quadrant" % (g.short, b, a, a, why), kind="zip-after-filter")
+            return
     pos = ("sym", f.params()[1])
     slices_t = ("attr", ("sym", "self"), "_slices")
     reads = [e for e in r.events if e.kind == "call" and e.term[1][0] == "attr" and e.term[1][2] == "read_image"]
